@@ -31,9 +31,9 @@ STATE_POOLS = [
     [True, 2, "q", 3.25],
     ["starting_a", "a", "b", "starting_b"],
 ]
-SYM_POOLS = [["a", "b"], [1, 2], ["a b", "ü"], ["a", 1], ["a->b", "c/d"]]
-STACK_POOLS = [["Z", "X"], [0, 1], ["Z 0", "ß"], ["Z", 7]]
-OUT_POOLS = [["u", "v"], [1, "u"], ["u v", "é"]]
+SYM_POOLS = [["a", "b"], [1, 2], ["a b", "ü"], ["a", 1], [0, 1], [False, "x"], [0.0, "y"], ["a->b", "c/d"]]
+STACK_POOLS = [["Z", "X"], [0, 1], ["Z 0", "ß"], ["Z", 7], [False, "Z"]]
+OUT_POOLS = [["u", "v"], [1, "u"], ["u v", "é"], [0, "u"]]
 
 
 def gen(rng, tier):
@@ -56,7 +56,7 @@ def gen(rng, tier):
         sp = rng.pick(STATE_POOLS)
         ns = rng.randint(1, 3)
         states = sp[:ns]
-        syms = rng.pick(SYM_POOLS[:4])
+        syms = rng.pick(SYM_POOLS[:7])
         stack = rng.pick(STACK_POOLS)
         trans = []
         for _ in range(rng.randint(1, 6)):
@@ -71,7 +71,7 @@ def gen(rng, tier):
         sp = rng.pick(STATE_POOLS)
         ns = rng.randint(1, 4)
         states = sp[:ns]
-        syms = rng.pick(SYM_POOLS[:4])
+        syms = rng.pick(SYM_POOLS[:7])
         outs = rng.pick(OUT_POOLS)
         trans = []
         for _ in range(rng.randint(0, 6)):
